@@ -522,10 +522,12 @@ class DateRange:
             date += self.step
 
     def __contains__(self, date):
-        if self.inclusive:
-            return self.start <= date <= self.stop
+        if self.step.total_seconds() > 0:
+            inside = self.start <= date < self.stop
         else:
-            return self.start <= date < self.stop
+            inside = self.stop < date <= self.start
+
+        return inside or (self.inclusive and date == self.stop)
 
     def __len__(self):
         if self.inclusive and self.dur % self.step == timedelta(0):
